@@ -14,9 +14,15 @@ import (
 	"strings"
 	"time"
 
+	"crypto/elliptic"
+
+	"github.com/ontio/ontology-crypto/ec"
 	"github.com/ontio/ontology-crypto/keypair"
+	sig "github.com/ontio/ontology-crypto/signature"
+	"github.com/ontio/ontology/account"
 	"github.com/ontio/ontology/common"
 	"github.com/ontio/ontology/common/config"
+	vconfig "github.com/ontio/ontology/consensus/vbft/config"
 	"github.com/ontio/ontology/core/payload"
 	ct "github.com/ontio/ontology/core/types"
 	pc "github.com/ontio/ontology/p2pserver/common"
@@ -821,6 +827,42 @@ func exec(line string) hx.Result {
 	case len(f) == 4 && f[0] == "F":
 		m, _ := strconv.ParseUint(f[1], 10, 32)
 		return run(uint32(m), hx.MustUnhex(f[2]), line)
+	case len(f) == 2 && f[0] == "O":
+		// explored only: a correctly signed OfflineWitnessMsg (fixed key) must survive WriteMessage/ReadMessage
+		k, _ := strconv.Atoi(f[1])
+		priv := &ec.PrivateKey{Algorithm: ec.ECDSA, PrivateKey: ec.ConstructPrivateKey(bytes.Repeat([]byte{0x42}, 32), elliptic.P256())}
+		acc := &account.Account{PrivateKey: priv, PublicKey: priv.Public(), SigScheme: sig.SHA256withECDSA}
+		id := vconfig.PubkeyID(acc.PublicKey)
+		m := &types.OfflineWitnessMsg{Timestamp: 7, View: 3, NodePubKeys: []string{id}, Proposer: id}
+		res := hx.Result{Out: "opaque", Key: line, Kind: "offline:built"}
+		if err := m.AddProposeSig(acc); err != nil {
+			return hx.Result{Out: "bad-op"}
+		}
+		for i := 0; i < k; i++ {
+			if err := m.VoteFor(acc, []uint8{0}); err != nil {
+				return hx.Result{Out: "bad-op"}
+			}
+		}
+		if err := m.VerifySigs(); err != nil {
+			return hx.Result{Out: "bad-op"}
+		}
+		enc, _ := serialize(m)
+		config.DefConfig.P2PNode.NetworkMagic = defMagic
+		r2 := readOnce(goodFrame([]byte("offline"), enc))
+		switch {
+		case r2.panicMsg != "":
+			res.Out = "PANIC"
+			res.Fail, res.Class = "ReadMessage panicked: "+r2.panicMsg, "decoder-panic:offline"
+		case r2.err != nil:
+			res.Kind = "offline:built-rejected"
+			res.Fail, res.Class = "a correctly signed offline-witness message is rejected by its own decoder: "+r2.err.Error(), "roundtrip-broken:offline"
+		default:
+			re, _ := serialize(r2.msg)
+			if !bytes.Equal(re, enc) {
+				res.Fail, res.Class = "decode(encode m) != m", "roundtrip-mismatch:offline"
+			}
+		}
+		return res
 	case len(f) == 3 && f[0] == "E" && f[1] == "addr":
 		m := parseAddrEntries(f[2])
 		enc, _ := serialize(m)
